@@ -175,7 +175,7 @@ Qed.
 Lemma store_of_attr : forall pyconv raw e,
   option_map st_attr (store_of pyconv raw e) = option_map (fun x : string * (string * string) => fst (snd x)) (stored_generic e).
 Proof.
-  intros. unfold store_of, stored_generic. destruct (c_kind e) as [p g c [[a f]|]|p b [[a f]|]|p|t| |]; reflexivity.
+  intros. unfold store_of, stored_generic. destruct (c_kind e) as [p g c [[a f]|]|p b [[a f]|]|p|t|h k|ps| |]; reflexivity.
 Qed.
 
 Lemma stores_attrs : forall pyconv raw es, map st_attr (stores_of pyconv raw es) = store_attrs_of es.
